@@ -366,6 +366,15 @@ def find_helpers(repo):
                 f = n.func
                 if (isinstance(f, ast.Name) and f.id == name) or (isinstance(f, ast.Attribute) and f.attr == name):
                     bad = True        # recursive
+        # a closure made by the helper captures the helper's own variables, one binding per call:
+        # expanded into a loop of the caller it would capture the caller's loop variable instead
+        own = _assigned(node) | set(_params(node)) | ({a.vararg.arg} if a.vararg else set()) | ({a.kwarg.arg} if a.kwarg else set())
+        for n in ast.walk(node):
+            if isinstance(n, (ast.Lambda, ast.GeneratorExp)):
+                inner = {x.arg for x in n.args.args} if isinstance(n, ast.Lambda) else {x.id for g_ in n.generators for x in ast.walk(g_.target) if isinstance(x, ast.Name)}
+                used = {x.id for x in ast.walk(n.body if isinstance(n, ast.Lambda) else n) if isinstance(x, ast.Name) and isinstance(x.ctx, ast.Load)}
+                if (used - inner) & own:
+                    bad = True
         if bad:
             continue
         try:
